@@ -148,16 +148,7 @@ func gaussJordan_DenseFloat64(a, x *DenseFloat64Matrix, b DenseFloat64Vector, su
     // normalize ith element in b
     b.AT(p[i]).DIV(b.AT(p[i]), c)
   }
-  if err := a.PermuteRows(p); err != nil {
-    return err
-  }
-  if err := x.PermuteRows(p); err != nil {
-    return err
-  }
-  if err := b.Permute(p); err != nil {
-    return err
-  }
-  return nil
+  return permuteRows(a, x, b, p)
 singular:
   return errors.New("system is computationally singular")
 }
